@@ -13,4 +13,5 @@ func extraGens() {
 	runGen("c12", genC12)
 	runGen("c18", genC18)
 	runGen("c16", genC16)
+	runGen("c19", genC19)
 }
